@@ -286,12 +286,18 @@ def relnorm(path: str, root: Path) -> str:
 # part 1: names and locations
 # ---------------------------------------------------------------------------------------------
 
-def check_names(ctx, proj: Path, names: list[str], entries: list[str], hashseeds: list[int], label: str, model_rows: list):
-    """Construct DataCatalog(name=n) for every n (several fresh sessions) and judge acceptance, stability, isolation."""
+def run_names(proj: Path, names: list[str], entries: list[str], hashseeds: list[int]) -> list[list[dict]]:
+    """Construct DataCatalog(name=n) for every n and ask for the entries' nodes, once per hash seed, each time in a fresh
+    interpreter (sequential: a later session re-opens what the earlier one persisted). Only runs the real code."""
     ops = [{"k": "make", "cat": cps(n), "entries": [cps(e) for e in entries]} for n in names]
-    sessions = []
-    for hs in hashseeds:        # sequential: a later session re-opens what the earlier one persisted
-        sessions.append(run_session([{"dir": str(proj), "ops": ops}], hs)[0])
+    return [run_session([{"dir": str(proj), "ops": ops}], hs)[0] for hs in hashseeds]
+
+
+def check_names(ctx, proj: Path, names: list[str], entries: list[str], hashseeds: list[int], label: str, model_rows: list,
+                sessions: list | None = None):
+    """Judge acceptance, stability over sessions and isolation of `run_names`' observations."""
+    if sessions is None:
+        sessions = run_names(proj, names, entries, hashseeds)
     first = sessions[0]
     where: dict[str, set] = {}
     dirs: dict[str, set] = {}
@@ -727,57 +733,68 @@ def check_e2e(ctx, case: dict, builds, logs):
 # ---------------------------------------------------------------------------------------------
 
 def campaign(ctx):
+    """All inputs are generated first (from ctx.rng only); the real code then runs for the name projects, the traces and the
+    end-to-end projects CONCURRENTLY (they are independent projects in separate interpreters; sessions of one project stay
+    sequential); judging and the comparison with the model follow sequentially."""
+    import time as _t
     base = common.scratch_dir("c20")
     try:
         rng = ctx.rng
-        import time as _t
-        t_last = [_t.time()]
+        t0 = _t.time()
         phases = ctx.extra.setdefault("phase_s", {})
-
-        def lap(name):
-            phases[name] = round(phases.get(name, 0) + _t.time() - t_last[0], 1)
-            t_last[0] = _t.time()
-        # 0 corpus first: stored witnesses (known findings, minimised past failures)
-        for f in sorted((common.VERIF / "corpus" / "C20").glob("*.json")):
-            replay_one(ctx, json.loads(f.read_text())["input"])
+        # ---- inputs
+        jobs = []    # (label, project, names, entries, hashseeds)
+        other_corpus = []
+        for n, f in enumerate(sorted((common.VERIF / "corpus" / "C20").glob("*.json"))):   # 0 corpus first
+            inp = json.loads(f.read_text())["input"]
+            if inp.get("kind") in ("paths", "name"):
+                nm = [s_of(x) for x in inp["names"]] if inp["kind"] == "paths" else [s_of(inp["name"])]
+                en = [s_of(e) for e in inp.get("entries", [])] or ["e"]
+                jobs.append((f"corpus{n}", new_project(base, f"corpus{n}"), nm, en, [1, 2]))
+            else:
+                other_corpus.append(inp)
             ctx.dist["corpus"] += 1
-        lap("corpus")
-        model_rows: list = []
-        # 1a exhaustive small scope (+ corpus witnesses of F5)
-        names = list(small_names(3)) + ["a/b", "a b", "a/../b", "b", "a\n", "a.b"]
-        names = list(dict.fromkeys(names))
-        proj = new_project(base, "names_small")
-        check_names(ctx, proj, names, ["e", "é/..\n"], [rng.randrange(1, 1 << 16), rng.randrange(1, 1 << 16)], "small", model_rows)
-        ctx.exhaustive = True
-        lap("names_small")
+        # 1a exhaustive small scope (+ the former F5 witnesses)
+        names = list(dict.fromkeys(list(small_names(3)) + ["a/b", "a b", "a/../b", "b", "a\n", "a.b"]))
+        jobs.append(("small", new_project(base, "names_small"), names, ["e", "é/..\n"],
+                     [rng.randrange(1, 1 << 16), rng.randrange(1, 1 << 16)]))
         # 1b random unicode / long / separators / case-only differences, more entry names, 3 sessions
         rnames = list(dict.fromkeys(random_names(rng, ctx.scale(150, 1500))))
-        proj2 = new_project(base, "names_random")
-        check_names(ctx, proj2, rnames, list(dict.fromkeys(random_entry_names(rng, ctx.scale(8, 30)))),
-                    [rng.randrange(1, 1 << 16) for _ in range(3)], "random", model_rows)
-        lap("names_random")
+        jobs.append(("random", new_project(base, "names_random"), rnames,
+                     list(dict.fromkeys(random_entry_names(rng, ctx.scale(8, 30)))), [rng.randrange(1, 1 << 16) for _ in range(3)]))
         # 1c entry names that differ only by unicode normalisation / case / white space / separator spelling
-        proj3 = new_project(base, "names_confusable")
-        check_names(ctx, proj3, ["c", "C", "c-" + str(rng.randrange(100))], list(dict.fromkeys(sum(CONFUSABLE_ENTRIES, []))),
-                    [rng.randrange(1, 1 << 16) for _ in range(2)], "confusable", model_rows)
-        lap("names_confusable")
-        compare_names_with_model(ctx, model_rows)
-        lap("names_model")
+        jobs.append(("confusable", new_project(base, "names_confusable"), ["c", "C", "c-" + str(rng.randrange(100))],
+                     list(dict.fromkeys(sum(CONFUSABLE_ENTRIES, []))), [rng.randrange(1, 1 << 16) for _ in range(2)]))
         # 2 save/load traces over sessions
         nt = ctx.scale(48, 600)
         traces = [random_trace(rng, i, with_f5=(i % 6 == 5)) for i in range(nt)]
-        projs, results = run_traces(ctx, base, traces, [rng.randrange(1, 1 << 16) for _ in range(4)])
-        for t in traces:
-            check_trace(ctx, t, projs[t["id"]], results[t["id"]])
-        lap("traces")
+        trace_seeds = [rng.randrange(1, 1 << 16) for _ in range(4)]
         # 3 end to end
         ne = ctx.scale(8, 60)    # quick: one wave of 8 parallel projects
         cases = [random_e2e(rng, i, f5=(i == ne - 1)) for i in range(ne)]
-        with ThreadPoolExecutor(max_workers=8) as ex:
-            outs = list(ex.map(lambda c: run_e2e(ctx, base, c), cases))
+        # ---- the real code, concurrently
+        with ThreadPoolExecutor(max_workers=len(jobs) + 1 + min(8, ne)) as ex:
+            f_names = [ex.submit(run_names, proj, nm, en, hs) for _, proj, nm, en, hs in jobs]
+            f_traces = ex.submit(run_traces, ctx, base, traces, trace_seeds)
+            f_e2e = [ex.submit(run_e2e, ctx, base, c) for c in cases]
+            name_sessions = [f.result() for f in f_names]
+            projs, results = f_traces.result()
+            outs = [f.result() for f in f_e2e]
+        phases["real_code_concurrent"] = round(_t.time() - t0, 1)
+        t1 = _t.time()
+        # ---- judging + model
+        for inp in other_corpus:
+            replay_one(ctx, inp)
+        model_rows: list = []
+        for (label, proj, nm, en, hs), ses in zip(jobs, name_sessions):
+            check_names(ctx, proj, nm, en, hs, label, model_rows, sessions=ses)
+        ctx.exhaustive = True
+        compare_names_with_model(ctx, model_rows)
+        for t in traces:
+            check_trace(ctx, t, projs[t["id"]], results[t["id"]])
         for c, (proj, builds, logs) in zip(cases, outs):
             check_e2e(ctx, c, builds, logs)
-        lap("e2e")
+        phases["judge_and_model"] = round(_t.time() - t1, 1)
     finally:
         shutil.rmtree(base, ignore_errors=True)
 
